@@ -1,5 +1,5 @@
 (* C03 - Everything the authenticator emits is CTAP2 canonical CBOR. *)
-From Ctap Require Import Base Schema Wire Typed Procs Inst Tables ProcTables Canonical WireP SerP FramingP C03P ObSerRole ObDeclOrder.
+From Ctap Require Import Base Schema Wire Typed Procs Inst Tables ProcTables Canonical WireP SerP FramingP C03P ObSerRole ObDeclOrder FnShapes Shapes ObShapeResponse ObShapeFilters.
 Local Open Scope string_scope.
 Local Open Scope Z_scope.
 
@@ -61,6 +61,13 @@ Proof. exact generated_ser_role. Qed.
 Theorem c03_generated_decl_order : forallb (fun f => decl_order_canonical (gen_env f)) all_feats = true.
 Proof. exact generated_decl_order. Qed.
 
+(* tie to the source for the hand-modelled procedural code: the bodies of these functions, as regenerated from
+   /repo now, have the shape (literals, operators, calls, control flow, constants) the model was written against *)
+Theorem c03_modelled_functions_unchanged_response : shapes_hold fn_shapes shapes_response = true.
+Proof. exact generated_shapes_response. Qed.
+Theorem c03_modelled_functions_unchanged_filters : shapes_hold fn_shapes shapes_filters = true.
+Proof. exact generated_shapes_filters. Qed.
+
 Eval vm_compute in "ASSUMPTIONS c03_all_structs_ordered". Print Assumptions c03_all_structs_ordered.
 Eval vm_compute in "ASSUMPTIONS c03_encoder_canonical". Print Assumptions c03_encoder_canonical.
 Eval vm_compute in "ASSUMPTIONS c03_response_body_canonical". Print Assumptions c03_response_body_canonical.
@@ -70,3 +77,5 @@ Eval vm_compute in "ASSUMPTIONS c03_decl_order_spec". Print Assumptions c03_decl
 Eval vm_compute in "ASSUMPTIONS c03_cose_label_order". Print Assumptions c03_cose_label_order.
 Eval vm_compute in "ASSUMPTIONS c03_generated_conforms". Print Assumptions c03_generated_conforms.
 Eval vm_compute in "ASSUMPTIONS c03_generated_decl_order". Print Assumptions c03_generated_decl_order.
+Eval vm_compute in "ASSUMPTIONS c03_modelled_functions_unchanged_response". Print Assumptions c03_modelled_functions_unchanged_response.
+Eval vm_compute in "ASSUMPTIONS c03_modelled_functions_unchanged_filters". Print Assumptions c03_modelled_functions_unchanged_filters.
